@@ -1,7 +1,7 @@
 """SimDisk: in-memory text handles passed as the ``handle`` argument of the real writers/readers.
 
 SimWriter records every write() as a chunk and can fail the k-th write (or flush/close) with OSError(ENOSPC|EIO).
-SimReader serves a text with seed-chosen short reads (read(n) returns fewer characters; readline/iteration unaffected
+SimReader can fail the k-th read()/readline() with OSError(EIO) and serves a text with seed-chosen short reads (read(n) returns fewer characters; readline/iteration unaffected
 in content but the underlying read sizes vary).  For readers that insist on a *path* (gffutils), ``materialise``
 writes the text byte-for-byte under /dev/shm and the caller removes it right after the parse."""
 import errno
@@ -44,8 +44,11 @@ class SimWriter(io.TextIOBase):
 class SimReader(io.TextIOBase):
     """Text reader with legal short reads."""
 
-    def __init__(self, text, rng=None, max_chunk=None, name="<simdisk>"):
+    def __init__(self, text, rng=None, max_chunk=None, name="<simdisk>", fail_at=None, err=errno.EIO):
         super().__init__()
+        self.fail_at = fail_at  # 1-based index of the read()/readline() that raises
+        self.err = err
+        self.fired = False
         self.text = text
         self.pos = 0
         self.rng = rng
@@ -67,8 +70,14 @@ class SimReader(io.TextIOBase):
             return cap
         return n
 
-    def read(self, n=-1):
+    def _count(self):
         self.reads += 1
+        if self.fail_at is not None and self.reads == self.fail_at:
+            self.fired = True
+            raise OSError(self.err, os.strerror(self.err))
+
+    def read(self, n=-1):
+        self._count()
         if n is None or n < 0:
             # read-all must return everything (a short read is only legal for sized reads)
             out = self.text[self.pos:]
@@ -80,7 +89,7 @@ class SimReader(io.TextIOBase):
         return out
 
     def readline(self, size=-1):
-        self.reads += 1
+        self._count()
         if self.pos >= len(self.text):
             return ""
         j = self.text.find("\n", self.pos)
